@@ -161,3 +161,14 @@ Theorem C02_document_round_trip_decidable : forall m, model_okb m = true ->
 Proof. exact document_round_trip_decidable. Qed.
 Theorem C02_decidable_domain_is_sound : forall m, model_okb m = true -> model_ok m.
 Proof. exact model_okb_ok. Qed.
+
+(* utils.IsRelationAssignable (Model/Utils.is_assignable), the property's last observation point: for every rewrite a DSL
+   document can carry it answers "yes" exactly when the printer writes a type restriction list for the relation (the printer's
+   counter, theorem 1, is then not zero), and the answer is the same for the model read back from the DSL (hoisted,
+   collapsed: Spec/Normalize.normalize) — at any depth and under any operators *)
+From Verif Require Import Model.Utils Proofs.Assignable.
+Theorem C02_assignable_iff_a_restriction_list_is_written : forall rs u, carriable u = true ->
+  exists t n, print_top u rs = Some (t, n) /\ is_assignable u = negb (n =? 0)%nat.
+Proof. exact assignable_iff_restriction_written. Qed.
+Theorem C02_assignable_survives_the_round_trip : forall u, is_assignable (normalize u) = is_assignable u.
+Proof. exact normalize_assignable. Qed.
